@@ -317,7 +317,8 @@ def class_factory(id_pack, methods):
                     cursor = name_pack[:cursor].rfind('.')
                     continue
                 _class_name = name_pack[cursor + 1:]
-                _class = getattr(_module, _class_name, None)
+                # plain dict lookup: getattr() on a module may run a module-level __getattr__ (lazy importers)
+                _class = getattr(_module, '__dict__', {}).get(_class_name)
                 if _class is not None and hasattr(_class, '__class__'):
                     class_descriptor = NetrefClass(_class)
                 break
